@@ -8,7 +8,7 @@ T="$(mktemp -d /tmp/vmut-XXXXXX)"
 trap 'rm -rf "$T"' EXIT
 mkdir -p "$T/core"
 (cd /repo && git ls-files -z | xargs -0 cp --parents -t "$T/core") 
-if ! (cd "$T/core" && patch -p1 -s < "$PATCH"); then echo "PATCH-FAILED $(basename "$PATCH")"; exit 2; fi
+if ! python3 "$ROOT/selftest/apply_mutant.py" "$PATCH" "$T/core"; then echo "PATCH-FAILED $(basename "$PATCH")"; exit 2; fi
 sed "s#=> /repo#=> $T/core#" "$ROOT/go.mod" > "$T/go.mod"; cp "$ROOT/go.sum" "$T/go.sum"
 cd "$ROOT"
 OUT="$T/out.txt"
@@ -16,11 +16,11 @@ VERIF_MODFILE="$T/go.mod" VERIF_WORK_SUFFIX="-mut$$" VERIF_SEED="${VERIF_SEED:-1
 rc=$?
 rm -rf "$ROOT/.work/$ID-mut$$" "$ROOT/.work/bin/"*.go "$ROOT/.work/bin/"*.go.race 2>/dev/null
 if grep -q "^VIOLATION" "$OUT"; then
-  echo "FIRED  $(basename "$PATCH" .diff) x $ID ($(grep -c '^VIOLATION' "$OUT") violation lines; first key: $(grep -m1 'key=' "$OUT" | sed 's/.*key=//'))"
+  echo "FIRED  $(basename "${PATCH%.*}") x $ID ($(grep -c '^VIOLATION' "$OUT") violation lines; first key: $(grep -m1 'key=' "$OUT" | sed 's/.*key=//'))"
   exit 0
 elif [ $rc -eq 2 ]; then
-  echo "BUILD-FAILED $(basename "$PATCH" .diff) x $ID"; tail -5 "$OUT"; exit 2
+  echo "BUILD-FAILED $(basename "${PATCH%.*}") x $ID"; tail -5 "$OUT"; exit 2
 else
-  echo "SILENT $(basename "$PATCH" .diff) x $ID (exit $rc): $(tail -1 "$OUT")"
+  echo "SILENT $(basename "${PATCH%.*}") x $ID (exit $rc): $(tail -1 "$OUT")"
   exit 1
 fi
